@@ -202,11 +202,13 @@ package geometry
 //@   ensures result == 4
 //@ func Rect.PointAt
 //@   props C18
+//@   dead cover.ret5
 //@   arith order
 //@   requires 0 <= index && index <= 4
 //@   ensures result == rectPt(rect, index)
 //@ func Rect.SegmentAt
 //@   props C18 C04
+//@   dead cover.ret4
 //@   arith order
 //@   requires 0 <= index && index < 4
 //@   ensures result == rectSeg(rect, index)
@@ -226,7 +228,7 @@ package geometry
 //@ spec func RWFtop(d []byte, s *baseSeries) bool
 //@ spec func QWFtop(d []byte, s *baseSeries) bool
 //@ spec func indexBytesOK(s *baseSeries, d []byte) bool {
-//@     len(d) >= 5 && 5 <= le32(d,1) && le32(d,1) <= len(d) &&
+//@     len(d) >= 5 && 5 <= le32(d,1) && le32(d,1) <= len(d) && (d[0] == 1 || d[0] == 2) &&
 //@     (d[0] == 1 ==> RWFtop(slice(d, 0, le32(d,1)), s)) && (d[0] == 2 ==> QWFtop(slice(d, 0, le32(d,1)), s)) }
 //@ spec func IndexInv(s *baseSeries) bool { s.index == nil || (isBytes(s.index) && indexBytesOK(s, unboxBytes(s.index))) }
 
